@@ -4,6 +4,7 @@ import ActsModel.Driver.Lifecycle
 import ActsModel.Driver.Store
 import ActsModel.Driver.Msg
 import ActsModel.Driver.Value
+import ActsModel.Driver.Glob
 open Lean Acts.Driver
 
 def dispatch (req : Lean.Json) : Lean.Json :=
@@ -13,6 +14,8 @@ def dispatch (req : Lean.Json) : Lean.Json :=
   | "c09.run" => msgRun req
   | "c14.value" => valueCase req
   | "c14.tmpl" => tmplCase req
+  | "c18.glob" => globCase req
+  | "c18.chan" => chanCase req
   | "ping" => Lean.Json.mkObj [("pong", Lean.Json.bool true)]
   | c => Lean.Json.mkObj [("error", Lean.Json.str s!"unknown cmd {c}")]
 
